@@ -8,7 +8,13 @@
  "stubs": ["map notifier callback (records calls)", "calloc/malloc (scripted, succeed)", "strcmp (byte-wise comparison of the short keys)"],
  "expect_classes": ["assertion"], "timeout": 300,
  "variants": [{"vname": "rm_successor", "defines": ["-DV_RMKEY=\"d\"", "-DV_SUCC"]},
-              {"vname": "rm_predecessor", "defines": ["-DV_RMKEY=\"b\"", "-DV_PRED"]}]}
+              {"vname": "rm_predecessor", "defines": ["-DV_RMKEY=\"b\"", "-DV_PRED"]},
+              {"vname": "compose_succ", "defines": ["-DV_RMKEY=\"d\"", "-DV_COMPOSE", "-DV_SUCC"],
+               "bound": "skiplist with keys a < b < c < d present (level 0), iterator parked on c; THREE real operations: skiplist_rm(c), skiplist_rm(d), skiplist_iter_next; symbolic values"},
+              {"vname": "compose_first", "defines": ["-DV_RMKEY=\"a\"", "-DV_COMPOSE"],
+               "bound": "skiplist with keys a < b < c < d present (level 0), iterator parked on c; THREE real operations: skiplist_rm(c), skiplist_rm(a), skiplist_iter_next; symbolic values"},
+              {"vname": "rm_successor_at_head", "defines": ["-DV_RMKEY=\"b\"", "-DV_HEAD"],
+               "bound": "skiplist with keys b < d present (level 0), key a removed earlier while an iterator is parked on it (level -1, sharing the HEADER's forward array); skiplist_rm(b), then skiplist_iter_next of the parked iterator; symbolic values"}]}
 */
 /* Iterator parked on an entry that was removed under it (the documented use), then ANOTHER entry is removed,
  * then the iterator advances.  C18: no freed memory is touched, the iteration continues with the next key
@@ -17,7 +23,14 @@
  *  rm_predecessor: the entry BEFORE the parked one is removed -> the iterator must continue with d.
  *    GENUINE DEFECT (new): the removed-but-parked node c shares b's forward array (take-over in skiplist_rm);
  *    removing b (not parked, predecessor a is not the header) frees that array in skiplist_node_destroy, and
- *    the iterator's next step reads it: use after free in skiplist_node_next. */
+ *    the iterator's next step reads it: use after free in skiplist_node_next.
+ *  compose_succ / compose_first: the parked entry c is removed by the REAL skiplist_rm first (so the state "removed
+ *    but parked" is the one the code produces, not a hand-built one), then its successor d resp. the first entry a,
+ *    then the iterator advances: end of iteration resp. d, no freed memory touched.
+ *  rm_successor_at_head: the parked, removed entry was the FIRST one (it shares the header's forward array); the
+ *    entry after it is removed -> its predecessor is the header, so skiplist_rm takes the array over once more and
+ *    frees the one the parked node still uses.  GENUINE DEFECT, same root cause (forward arrays are shared without
+ *    being reference counted); native reproducer: put a,b,c; next (a); rm a; rm b; next. */
 #include "os_base.h"
 #include <qb/qbmap.h>
 #include "verif.h"
@@ -56,19 +69,43 @@ void harness(void)
 	struct skiplist_node *h = sl_node(NULL, NULL, SKIPLIST_LEVEL_MAX, 1, 1);
 	struct skiplist_node *a = sl_node("a", va, 0, 1, 1);
 	struct skiplist_node *b = sl_node("b", vb, 0, 1, 1);
+#ifdef V_COMPOSE
+	struct skiplist_node *c = sl_node("c", vc, 0, 2, 1);                        /* present, one iterator parked on it */
+#else
 	struct skiplist_node *c = sl_node("c", vc, SKIPLIST_LEVEL_MIN - 1, 1, 0);   /* removed, parked */
+#endif
 	struct skiplist_node *d = sl_node("d", vd, 0, 1, 1);
 	l->level = 0;
-	l->length = 3;
 	l->header = h;
+	struct skiplist_iter *it = malloc(sizeof(*it));
+	ASSUME(it != NULL);
+	it->i.m = &l->map;
+#ifdef V_HEAD
+	/* a was removed while parked: it is out of the chain and shares the header's forward array; c is not used */
+	l->length = 2;
+	a->level = SKIPLIST_LEVEL_MIN - 1;
+	free(a->forward);
+	a->forward = h->forward;
+	h->forward[0] = b;
+	b->forward[0] = d;
+	it->n = a;
+#elif defined(V_COMPOSE)
+	l->length = 4;
+	h->forward[0] = a;
+	a->forward[0] = b;
+	b->forward[0] = c;
+	c->forward[0] = d;
+	it->n = c;
+	int32_t r0 = skiplist_rm(&l->map, "c");
+	POST(r0 != QB_FALSE && l->length == 3, "removing the entry an iterator is parked on succeeds and is counted");
+#else
+	l->length = 3;
 	h->forward[0] = a;
 	a->forward[0] = b;
 	b->forward[0] = d;
 	c->forward = b->forward;            /* what skiplist_rm("c") left: c took over b's forward array */
-	struct skiplist_iter *it = malloc(sizeof(*it));
-	ASSUME(it != NULL);
-	it->i.m = &l->map;
 	it->n = c;
+#endif
 	void *val = NULL;
 
 	int32_t r = skiplist_rm(&l->map, V_RMKEY);
@@ -76,7 +113,11 @@ void harness(void)
 
 	COVER(1);
 	POST(r != QB_FALSE, "remove reports success when the key was present");
+#ifdef V_HEAD
+	POST(l->length == 1, "the count equals the number of keys present");
+#else
 	POST(l->length == 2, "the count equals the number of keys present");
+#endif
 #ifdef V_SUCC
 	POST(k == NULL, "the iteration ends when no present key is left after the position");
 #else
